@@ -107,8 +107,14 @@ def run(tier, seed):
     import datetime as D
     def due_case(L):
         now = D.datetime.utcnow(); due = now + D.timedelta(seconds=L)
+        duel = 'DUE:' + due.strftime('%Y%m%dT%H%M%SZ')
+        if L % 3 == 0 and 1902 < due.year < 2037:
+            # the same moment as a wall-clock time of a zone
+            import zoneinfo
+            zn = ['Europe/Berlin', 'America/New_York', 'Asia/Kolkata', 'Australia/Sydney'][(L // 3) % 4]
+            duel = 'DUE;TZID=%s:%s' % (zn, due.replace(tzinfo=D.timezone.utc).astimezone(zoneinfo.ZoneInfo(zn)).strftime('%Y%m%dT%H%M%S'))
         vt = '\n'.join(['BEGIN:VCALENDAR', 'VERSION:2.0', 'BEGIN:VTODO', 'UID:due%d' % L, 'SUMMARY:true', 'X-ECHS-SETUID:0', 'X-ECHS-SETGID:0', 'X-ECHS-SHELL:/bin/sh', 'LOCATION:/tmp',
-                        'DUE:' + due.strftime('%Y%m%dT%H%M%SZ'), 'X-ECHS-UMASK:022', 'X-ECHS-MAIL-RUN:0', 'X-ECHS-MAIL-OUT:0', 'X-ECHS-MAIL-ERR:0', 'ORGANIZER:echse', 'END:VTODO', 'END:VCALENDAR', ''])
+                        duel, 'X-ECHS-UMASK:022', 'X-ECHS-MAIL-RUN:0', 'X-ECHS-MAIL-OUT:0', 'X-ECHS-MAIL-ERR:0', 'ORGANIZER:echse', 'END:VTODO', 'END:VCALENDAR', ''])
         a, st, canc = echsx_alarm(B, shim, xd, vt)
         return {'e': 'Due', 'L': L, 'alarm': a, 'starts': st, 'cancelled': canc}
     dues = [30, 3600, 86400 * 40, 5, -5, -3600, -86400 * 400, 100 * 86400] + ([rnd.randint(-10 ** 6, 10 ** 7) for _ in range(200)] if tier == 'thorough' else [rnd.randint(-10 ** 5, 10 ** 6) for _ in range(12)])
